@@ -55,6 +55,9 @@ pub struct Matrix {
     /// between two test cases (instantaneous commands, at least one test case follows)
     #[serde(default)]
     pub wait: bool,
+    /// the slow command ignores (1) or traps (2) SIGTERM before it sleeps
+    #[serde(default)]
+    pub trap_term: u8,
 }
 
 #[derive(Clone, Debug, Serialize, Deserialize)]
@@ -155,6 +158,7 @@ impl Matrix {
                     t.timeout_ms = self.per_ms();
                     if self.slow {
                         t.sleep_ms = SLOW_MS;
+                        t.trap_term = self.trap_term;
                     }
                     if self.wait {
                         t.wait_ms = Some(2000);
@@ -267,6 +271,7 @@ fn gen_matrix(k: u64, rng: &mut Rng) -> Matrix {
             pos: pos.min(n - 2),
             slow: false,
             wait: true,
+            trap_term: 0,
         };
     }
     if k % 6 == 5 {
@@ -280,10 +285,15 @@ fn gen_matrix(k: u64, rng: &mut Rng) -> Matrix {
             pos,
             slow: false,
             wait: false,
+            trap_term: 0,
         }
     } else {
-        let i = ((k - k / 6) % SLOW_ROWS.len() as u64) as usize;
+        let j = k - k / 6;
+        let i = (j % SLOW_ROWS.len() as u64) as usize;
         let (p, d) = SLOW_ROWS[i];
+        // plain, TERM-ignoring and TERM-trapping commands rotate over the rows, shifted by one on
+        // every pass so that each row meets each kind
+        let trap_term = ((j + j / SLOW_ROWS.len() as u64) % 3) as u8;
         Matrix {
             format: if i == 9 { Format::Cram } else { Format::Markdown },
             per_test: p,
@@ -292,6 +302,7 @@ fn gen_matrix(k: u64, rng: &mut Rng) -> Matrix {
             pos,
             slow: true,
             wait: false,
+            trap_term,
         }
     }
 }
@@ -616,6 +627,15 @@ impl C14 {
         let fmt = if case.format == Format::Markdown { "markdown" } else { "cram" };
         let mut buckets = j.buckets.clone();
         buckets.push(format!("B:{}:{rel}:{fmt}", if case.slow { "slow" } else if case.wait { "wait" } else { "calm" }));
+        // a command that ignores or traps SIGTERM must be aborted like any other
+        let term = match case.trap_term {
+            1 => "/sigterm-ignored",
+            2 => "/sigterm-trapped",
+            _ => "",
+        };
+        if case.slow {
+            buckets.push(format!("B:slow-command{}", if term.is_empty() { "/plain" } else { term }));
+        }
         buckets.push(format!("B:position={}", if case.pos == 0 { "first" } else if case.pos + 1 == case.n { "last" } else { "middle" }));
         let mut verdict: Option<(String, String)> = None;
         if let Some(f) = j.findings.first() {
@@ -658,7 +678,7 @@ impl C14 {
             buckets.push(format!("B:returned-after-s={}", wall.as_secs().min(9)));
             if wall >= Duration::from_millis(SLOW_MS) {
                 verdict = Some((
-                    format!("C14/not-bounded/{rel}/{fmt}"),
+                    format!("C14/not-bounded/{fmt}{term}"),
                     format!("scrut returned after {wall:?}: it waited for the 8 s command although the smallest limit is <= 1 s"),
                 ));
             } else if wall >= Duration::from_secs(6) {
@@ -667,7 +687,7 @@ impl C14 {
         }
         if verdict.is_none() && case.slow && obs.markers.contains(&late) {
             verdict = Some((
-                format!("C14/not-aborted/{fmt}"),
+                format!("C14/not-aborted/{fmt}{term}"),
                 format!("the timed-out command kept running: it wrote its second marker 8 s after it started; markers: {:?}", obs.markers),
             ));
         }
@@ -684,7 +704,7 @@ impl C14 {
         // the slow command never got as far as its first marker (limit struck earlier, loaded
         // machine): nothing was observed about aborting it, the row does not count as observed
         let started = !case.slow || obs.markers.contains(&format!("m{}", case.pos));
-        let shape = hash_str(&format!("{:?}{:?}{:?}{}{}{}{}", case.format, case.per_test, case.doc, case.slow, case.n, case.pos, case.wait));
+        let shape = hash_str(&format!("{:?}{:?}{:?}{}{}{}{}{}", case.format, case.per_test, case.doc, case.slow, case.n, case.pos, case.wait, case.trap_term));
         let mut c = match verdict {
             Some((sig, detail)) => Checked::violated(sig, detail),
             None => Checked::held(),
@@ -711,7 +731,7 @@ impl Monitor for C14 {
         let nb = n_matrix(tier);
         let mut p = Plan::new(
             nb + tier.pick(200, 5000),
-            "(A) runs of 1-3 Markdown documents with fast commands (0 or 20-80 ms) under per-test limits {absent, 50 ms .. 1 h, equal to / just above the document limit} and document limits {default, 0, 200 ms .. 1 h} from front-matter and/or --timeout-seconds: every timeout_decision event judged logically; non-trivial = a decision with both limits defined; distinct = hash of (relation, per-test limit, document limit) per decision. (B) matrix per-test {absent, 300 ms, 30 s} x document limit {default, 0, 1 s front-matter, --timeout-seconds 1/0} x position {first, middle, last} x {sleep 8, instantaneous} restricted to rows where the smallest limit is <= 1 s (slow) or every limit >= 20 s (instantaneous), Markdown plus the command-line rows for Cram, plus rows in which a `wait: 2s` uses up a 1 s document limit between two instantaneous test cases (that test case or the next must be reported failed, nothing after it passed, exit 50): every row non-trivial",
+            "(A) runs of 1-3 Markdown documents with fast commands (0 or 20-80 ms) under per-test limits {absent, 50 ms .. 1 h, equal to / just above the document limit} and document limits {default, 0, 200 ms .. 1 h} from front-matter and/or --timeout-seconds: every timeout_decision event judged logically; non-trivial = a decision with both limits defined; distinct = hash of (relation, per-test limit, document limit) per decision. (B) matrix per-test {absent, 300 ms, 30 s} x document limit {default, 0, 1 s front-matter, --timeout-seconds 1/0} x position {first, middle, last} x {sleep 8 (plain, or after the shell was told to ignore / to trap SIGTERM), instantaneous} restricted to rows where the smallest limit is <= 1 s (slow) or every limit >= 20 s (instantaneous), Markdown plus the command-line rows for Cram, plus rows in which a `wait: 2s` uses up a 1 s document limit between two instantaneous test cases (that test case or the next must be reported failed, nothing after it passed, exit 50): every row non-trivial",
         );
         p.chunk = 1;
         p.workers = tier.pick(28, 32);
@@ -725,6 +745,8 @@ impl Monitor for C14 {
             ("A:near-miss-tie".into(), tier.pick(5, 120)),
             ("kind:timeout".into(), tier.pick(8, 30)),
             ("B:wait:document-limit-only:markdown".into(), tier.pick(1, 3)),
+            ("B:slow-command/sigterm-ignored".into(), tier.pick(3, 10)),
+            ("B:slow-command/sigterm-trapped".into(), tier.pick(3, 10)),
         ];
         p.assumptions = vec![
             "(A) rests on the timeout_decision / exec_end hooks; missing events are inconclusive".into(),
@@ -810,7 +832,7 @@ impl Monitor for C14 {
             Case::Matrix(m) => {
                 let mut v = sample_run(&m.to_run());
                 v["monitor"] = json!("B");
-                v["row"] = json!(format!("{:?} per-test={:?} document={:?} n={} pos={} slow={} wait={}", m.format, m.per_test, m.doc, m.n, m.pos, m.slow, m.wait));
+                v["row"] = json!(format!("{:?} per-test={:?} document={:?} n={} pos={} slow={} wait={} trap_term={}", m.format, m.per_test, m.doc, m.n, m.pos, m.slow, m.wait, m.trap_term));
                 v
             }
             Case::Decision(d) => {
